@@ -26,6 +26,18 @@ CHECKS = {
    text='(a) Explicit-state BFS over submissions and subscriber polls (chunk 1,2,3,1000) on storyline universes plus universes with a body-invalid block inside a heavier fork: path contiguity, count<=max, short only at tip, ledger folded from nothing but the updates equals the independently replayed ledger at the subscriber index (leaf indices, Merkle proofs verified against that accumulator), one-shot catch-up from every block index in every state (never-applied/unknown indices must error), OnReorg exactly once per tip change. (b) Schedule exploration (preemption bound 2/3) of AddBlocks racing with UpdatesSince polls on the real Manager under the cooperative scheduler.',
    note='Lock-granular interleavings; depth/state caps as in evidence; core/consensus trusted.',
    technique='explicit-state BFS + stateless schedule enumeration with preemption bounding on the real Manager', design='§4 C04'),
+ 'C05': dict(level='model_checking', engine='chainmc',
+   text='Explicit-state BFS by replay (state key includes the pool\'s private state) over block submissions, reorgs that confirm/unconfirm/invalidate pooled transactions, 12 menu sets (independent, conflicting, parent/child, 3 generations, child only, partly known, conflict/invalid at position 1, stale basis) and real MineBlock, in 3 regimes. After every transition every prefix of the reported pool validates on a fresh MidState of the reference tip, v2 proofs equal the reference ledger\'s, mined blocks are accepted by the node and a fresh linear node, and a reference lower-bound pool is contained in the reported pool.',
+   note='Fee eviction not explored; depth bound as in evidence; core/consensus trusted.',
+   technique='explicit-state model checking of the implementation by history replay against a reference pool model', design='§4 C05'),
+ 'C13': dict(level='model_checking', engine='chainmc',
+   text='In every distinct node state reached by BFS over submissions on pool universes and v2 contract storylines: UpdateV2TransactionSet for every ordered pair of applied indices x every menu set valid at the source (confirmed/ephemeral/mixed/siafund inputs, every transaction confirmed somewhere in the universe incl. contract revision/renewal/storage proof, two-input children) compared byte-for-byte with the expectation computed from the reference ledger at the target; proof/leaf-index/basis corruptions must error without panic; 150-block line for the distance limit; V2TransactionSet for every pooled transaction (parents first, basis==tip, argument untouched).',
+   note='Inputs spent or re-created on the way are not judged; depth bound as in evidence.',
+   technique='explicit-state exploration of node states with exhaustive (from,to,set) enumeration against a reference ledger', design='§4 C13'),
+ 'C14': dict(level='model_checking', engine='chainmc',
+   text='BFS by replay over submissions and the 12-set menu in 3 regimes: after every Add(V2)PoolTransactions the pool id set is before or before+new (all-or-nothing), known <=> every (unconfirmed) id was pooled, caller memory byte-identical and not aliased, returned v2 transactions and slices not aliased, PoolTransaction/V2PoolTransaction for every v1/v2/unknown id return exactly the pooled transaction or false without panic.',
+   note='v1 submissions are not documented to be copied; depth bound as in evidence.',
+   technique='explicit-state model checking of the implementation by history replay with contract oracles', design='§4 C14'),
  'C17': dict(level='model_checking', engine='kvmc',
    text='Explicit-state enumeration of every applicable operation sequence up to length L (quick 5 / thorough 7 in-memory, 4 / 5 Bolt) over a 2x2x3 bucket/key/value alphabet on MemDB, CacheDB(MemDB), CacheDB(CacheDB(MemDB)), BoltChainDB and CacheDB(BoltChainDB); every Bucket/Get/Iter observation after every operation is compared with a two-map reference model.',
    note='nil-valued puts excluded; nil and empty Get results not distinguished; bbolt atomic commit trusted. Chain-level clause is exercised by the C02 backend replay.',
